@@ -2,7 +2,7 @@
    Statements only; proofs in Proofs/C11_*.v.  Model: Model/Reloc.v (hand model of Relocation.apply of each
    class, BitView / Token writes, get_symbol_id_value, Linker._do_relocation; wrap_negative/align from Gen.bitfun,
    regenerated per run); Spec: Spec/RelocSpec.v (ISA decoders); Gen/Tab_relocs.v: every relocation class of /repo. *)
-From PV Require Import Lib.Py Spec.RelocSpec Gen.bitfun Model.Reloc Gen.Tab_relocs Proofs.C11_bits Proofs.C11_final.
+From PV Require Import Lib.Py Spec.RelocSpec Gen.bitfun Model.Reloc Gen.Tab_relocs Proofs.C11_bits Proofs.C11_final Proofs.C11_tie Proofs.C11_relocs3 Proofs.C11_relocs4.
 Open Scope Z_scope.
 
 Theorem c11_bitview_writes_field : forall data length a b v,
@@ -162,6 +162,62 @@ Theorem c11_do_relocation_site : forall secs syms r secs', 0 <= r_off r -> do_re
     skipn (Z.to_nat e) (splice (s_data sec) b e data') = skipn (Z.to_nat e) (s_data sec).
 Proof. exact do_relocation_site. Qed.
 Print Assumptions c11_do_relocation_site.
+
+(* ---- Thumb and x86 classes (site 2-aligned; thumb ranges are the ones the classes assert) *)
+Theorem c11_exact_thumb_bcc : forall A S P data, bytes_ok 2 data -> S mod 2 = 0 -> P mod 2 = 0 ->
+  - 256 <= S - (P + 4) < 254 ->
+  exists d', apply ThRel8 A S data P = Ok d' /\ bytes_ok 2 d' /\ thumb_bcc_target (le_word d') P = S /\
+             bits (le_word d') 8 8 = bits (le_word data) 8 8.
+Proof. exact Proofs.C11_relocs3.exact_thumb_bcc. Qed.
+Print Assumptions c11_exact_thumb_bcc.
+
+Theorem c11_exact_thumb_ldr_lit : forall A S P data, bytes_ok 2 data -> S mod 4 = 0 -> P mod 2 = 0 ->
+  0 <= S - (P + 4) / 4 * 4 < 1024 ->
+  exists d', apply ThLit8 A S data P = Ok d' /\ bytes_ok 2 d' /\ thumb_ldr_lit_addr (le_word d') P = S /\
+             bits (le_word d') 8 8 = bits (le_word data) 8 8.
+Proof. exact Proofs.C11_relocs3.exact_thumb_ldr_lit. Qed.
+Print Assumptions c11_exact_thumb_ldr_lit.
+
+Theorem c11_exact_thumb_b : forall A S P data, bytes_ok 2 data -> P mod 2 = 0 -> (S - (P + 4)) mod 2 = 0 ->
+  - 2048 <= S - (P + 4) < 2046 ->
+  exists d', apply ThWrapNew11 A S data P = Ok d' /\ bytes_ok 2 d' /\ thumb_b_target (le_word d') P = S /\
+             bits (le_word d') 11 5 = bits (le_word data) 11 5.
+Proof. exact Proofs.C11_relocs3.exact_thumb_b. Qed.
+Print Assumptions c11_exact_thumb_b.
+
+(* BL is exact within +-4 MiB when the template has J1 = J2 = 1 (the assembler's); beyond: c11_thumb_bl_refuted *)
+Theorem c11_exact_thumb_bl : forall A S P data, bytes_ok 4 data -> S mod 2 = 0 -> P mod 2 = 0 ->
+  bits (le_word data) 29 1 = 1 -> bits (le_word data) 27 1 = 1 ->
+  - 2 ^ 22 <= S - (P + 4) < 2 ^ 22 ->
+  exists d', apply ThBlImm11 A S data P = Ok d' /\ bytes_ok 4 d' /\ thumb_bl_target (le_word d') P = S /\
+    bits (le_word d') 11 5 = bits (le_word data) 11 5 /\ bits (le_word d') 27 5 = bits (le_word data) 27 5.
+Proof. exact Proofs.C11_relocs3.exact_thumb_bl. Qed.
+Print Assumptions c11_exact_thumb_bl.
+
+(* ARM LDR (literal): the class ORs into the field; the template must have imm12[11:8] and U zero (assembler's) *)
+Theorem c11_exact_arm_ldr_lit : forall A S P data, bytes_ok 4 data -> S mod 4 = 0 -> P mod 4 = 0 ->
+  bits (le_word data) 8 4 = 0 -> bits (le_word data) 23 1 = 0 ->
+  - 4096 < S - (P + 8) < 4096 ->
+  exists d', apply ArmLdrImm12 A S data P = Ok d' /\ bytes_ok 4 d' /\ arm_ldr_lit_addr (le_word d') P = S /\
+    bits (le_word d') 12 11 = bits (le_word data) 12 11 /\ bits (le_word d') 24 8 = bits (le_word data) 24 8.
+Proof. exact Proofs.C11_relocs4.exact_arm_ldr_lit. Qed.
+Print Assumptions c11_exact_arm_ldr_lit.
+
+Theorem c11_exact_x86_jmp8 : forall A S P data, bytes_ok 1 data -> fits_signed 8 (S - (P + 1)) ->
+  exists d', apply X86Jmp8 A S data P = Ok d' /\ bytes_ok 1 d' /\ x86_rel8_target (le_word d') P = S.
+Proof. exact Proofs.C11_relocs3.exact_x86_jmp8. Qed.
+Print Assumptions c11_exact_x86_jmp8.
+
+Theorem c11_exact_x86_abs64 : forall A S P data, bytes_ok 8 data -> 0 <= S < 2 ^ 64 ->
+  exists d', apply X86Abs64 A S data P = Ok d' /\ bytes_ok 8 d' /\ le_word d' = S.
+Proof. exact Proofs.C11_relocs3.exact_x86_abs64. Qed.
+Print Assumptions c11_exact_x86_abs64.
+
+(* tie T: the hand model equals, for all arguments, the definitions regenerated (c11_flatten + py2coq) from the
+   calc/apply methods of the current source (24 classes; arm ldr_imm12/adr_imm12 and thumb b_imm11_imm6 stay tie H) *)
+Theorem c11_tie_bodies : forall k A S d P, apply k A S d P = Proofs.C11_tie.gen_apply k A S d P.
+Proof. exact Proofs.C11_tie.tie_bodies. Qed.
+Print Assumptions c11_tie_bodies.
 
 Theorem c11_table_sizes : forallb table_row_ok reloc_table = true.
 Proof. exact table_sizes. Qed.
